@@ -17,7 +17,7 @@
    the three formats (JSON Schema: since the fixes that unwrap json.Number in walkNumber and walkList). *)
 From Coq Require Import List String ZArith Bool.
 From Cog Require Import Model.IR Model.Json Model.GoSemBase Model.GoSemDecode Model.Ctor Model.PySem Model.CtorSpec
-  Model.Passes Model.PassesChain Model.Process Gen.Chains_gen Proofs.CtorProofs Proofs.CtorEnumProofs.
+  Model.Passes Model.PassesChain Model.Process Gen.Chains_gen Model.FrontEndChainSpec Proofs.CtorProofs Proofs.CtorEnumProofs Proofs.CtorChainProofs.
 Import ListNotations.
 Local Open Scope string_scope.
 
@@ -102,6 +102,68 @@ Theorem ctor_defaults_go_chain_enum_witness :
   holds_member wit_go_json "un" (JStr "x") = false.
 Proof. exact CtorEnumProofs.ctor_defaults_go_chain_enum_witness. Qed.
 Print Assumptions ctor_defaults_go_chain_enum_witness.
+
+(* ---- THROUGH the real chains, for EVERY context of the leafy fragment (Model/FrontEndChainSpec.v ctx_leafy: struct
+   objects whose fields are scalars / references / arrays / maps with ANY attributes, defaults and constants
+   included).  On it chain_go and chain_python compute nrfn_only (only NotRequiredFieldAsNullableType acts:
+   Proofs/FrontEndChainPasses.v chain_go_leafy, Proofs/CtorChainProofs.v chain_python_leafy), and the constructors over
+   the post-chain context hold every declared value of the PRE-chain simple fields
+   (pre_simple_field fld = simple_field (nrfn_field fld): simple once optional fields are nullable). ---- *)
+Theorem chain_python_leafy : forall ctx, ctx_leafy ctx = true -> process chain_python ctx = Ok (nrfn_only ctx).
+Proof. exact CtorChainProofs.chain_python_leafy. Qed.
+Print Assumptions chain_python_leafy.
+
+Theorem ctor_defaults_go_chain_partial : forall ctx out p n fs j,
+  ctx_leafy ctx = true -> process chain_go ctx = Ok out -> plain_struct_object ctx p n = Some fs ->
+  go_ctor out p n = COk j -> pre_simple_fields_hold fs j = true.
+Proof. exact CtorChainProofs.ctor_defaults_go_chain_partial. Qed.
+Print Assumptions ctor_defaults_go_chain_partial.
+
+Theorem ctor_defaults_py_chain_partial : forall ctx out p n fs j,
+  ctx_leafy ctx = true -> process chain_python ctx = Ok out -> plain_struct_object ctx p n = Some fs ->
+  py_ctor out p n = POk j -> pre_simple_fields_hold fs j = true.
+Proof. exact CtorChainProofs.ctor_defaults_py_chain_partial. Qed.
+Print Assumptions ctor_defaults_py_chain_partial.
+
+Theorem go_py_agree_chain_partial : forall ctx gout pout p n fs a b,
+  ctx_leafy ctx = true -> process chain_go ctx = Ok gout -> process chain_python ctx = Ok pout ->
+  plain_struct_object ctx p n = Some fs -> go_ctor gout p n = COk a -> py_ctor pout p n = POk b ->
+  simple_fields_agree (map nrfn_field fs) a b = true.
+Proof. exact CtorChainProofs.go_py_agree_chain_partial. Qed.
+Print Assumptions go_py_agree_chain_partial.
+
+Theorem simple_field_pre : forall fld, simple_field fld = true -> pre_simple_field fld = true.
+Proof. exact CtorChainProofs.simple_field_pre. Qed.
+Print Assumptions simple_field_pre.
+
+(* ---- END TO END for scalar fields of plain structs, from each of the three formats: the value j declared in the
+   source schema (stored by the front-end as fe_value fmt numtext j: Model/Ctor.v, validated against the real
+   front-ends) is the value both constructors hold after the real chains.
+   fe_scalar_field fmt numtext fld j := exists a k cs, f_type fld = TScalar a k DNil cs /\ dflt a = fe_value fmt numtext j /\
+     scalar_json_value j = true /\ fits_scalar k j = true /\ is_datetime (f_type fld) = false /\ k is bool/string/int/float ---- *)
+Theorem c10_end_to_end_scalars_go : forall fmt numtext ctx out p n fs fld j oj,
+  numtext_ok numtext -> ctx_leafy ctx = true -> process chain_go ctx = Ok out ->
+  plain_struct_object ctx p n = Some fs -> In fld fs -> fe_scalar_field fmt numtext fld j ->
+  go_ctor out p n = COk oj -> holds_member oj (f_name fld) j = true.
+Proof. exact CtorChainProofs.c10_end_to_end_scalars_go. Qed.
+Print Assumptions c10_end_to_end_scalars_go.
+
+Theorem c10_end_to_end_scalars_py : forall fmt numtext ctx out p n fs fld j oj,
+  numtext_ok numtext -> ctx_leafy ctx = true -> process chain_python ctx = Ok out ->
+  plain_struct_object ctx p n = Some fs -> In fld fs -> fe_scalar_field fmt numtext fld j ->
+  py_ctor out p n = POk oj -> holds_member oj (f_name fld) j = true.
+Proof. exact CtorChainProofs.c10_end_to_end_scalars_py. Qed.
+Print Assumptions c10_end_to_end_scalars_py.
+
+Example c10_chain_nonvacuous :
+  ctx_leafy nv_ctx = true /\
+  (exists fs, plain_struct_object nv_ctx "w" "Root" = Some fs /\ List.length (filter pre_simple_field fs) >= 6) /\
+  (exists out j, process chain_go nv_ctx = Ok out /\ go_ctor out "w" "Root" = COk j /\
+                 j = JObj [("b", JBool true); ("i", JNum 7 0); ("f", JNum 15 (-1)); ("s", JStr "x"); ("k", JStr "fixed");
+                           ("l", JArr [JStr "a"; JStr "b"])]) /\
+  (exists out j, process chain_python nv_ctx = Ok out /\ py_ctor out "w" "Root" = POk j /\
+                 holds_member j "i" (JNum 7 0) = true /\ holds_member j "s" (JStr "x") = true).
+Proof. exact CtorChainProofs.c10_chain_nonvacuous. Qed.
 
 (* ---- the two languages agree ---- *)
 Definition go_py_agree_statement : Prop :=
